@@ -61,7 +61,15 @@ def g_c08(rng, tier):
     big = 14 if tier == "quick" else 30
     if rng.random() < 0.35:
         return gen.gen_cf_case(rng, max_ops=big, warm=True, max_rows=12)
-    return gen.gen_ctx_case(rng, max_ops=big, warm=True, max_rows=12, swap_prob=0.16, fit_prob=0.06)
+    c = gen.gen_ctx_case(rng, max_ops=big, warm=True, max_rows=12, swap_prob=0.16, fit_prob=0.06)
+    tree_rng = c["np"] is not None and c["np"][0] == "tree" and (c["lp"][0] == "thompson" or (c["lp"][0] == "greedy" and c["lp"][1] > 0))
+    if rng.random() < 0.5 and not tree_rng:     # (TreeBandit policies that draw are modelled for one worker only: finding D7)
+        # all n_jobs: the rows of a query are split among the workers; query sizes around the job count
+        c["n_jobs"] = rng.choice([2, 3, 4, -1]); c["backend"] = "threading"
+        d = len(c["ops"][0][3][0])
+        for m in rng.sample([2, 3, 4, 5, 6, 7, 9], 3):
+            c["ops"].append((rng.choice(["pred", "pexp"]), gen.gen_ctx(rng, m, d, 0, 4)))
+    return c
 
 def g_c09(rng, tier):
     """half of the cases force exact ties between arms (constant rewards, no bonus, untrained arms)"""
